@@ -1,7 +1,8 @@
 SPECIFICATION TraceSpec
 CONSTANTS
-  ReaderInputs <- NoneSet
+  ReaderInputs <- NoStreams0
   WriterInputs <- NoneSet
+  WriterDigits = 0
   RejectNegative = TRUE
   OutCap = 16
   Emit = FALSE
